@@ -40,6 +40,10 @@ SETTINGS = [
     {"DEFAULT_LANGUAGES": ["fr", "en"]}, {"DEFAULT_LANGUAGES": ["ru", "de", "en"]},
     {"SKIP_TOKENS": ["xyz", "t", "abc."]}, {"REQUIRE_PARTS": ["year", "day"]},
     {"PARSERS": ["absolute-time", "relative-time", "timestamp"]},
+    # abbreviations that are also tz-database names (two readings exist inside the library): as the zone a string is
+    # interpreted in, and as the conversion target
+    {"TIMEZONE": "CET"}, {"TIMEZONE": "UTC", "TO_TIMEZONE": "CET"}, {"TIMEZONE": "EET", "TO_TIMEZONE": "WET"},
+    {"TIMEZONE": "UTC", "TO_TIMEZONE": "EET", "RETURN_AS_TIMEZONE_AWARE": True},
 ]
 NOBASE_SETTINGS = [{"__nobase__": True}, {"__nobase__": True, "PREFER_DATES_FROM": "past"},
                    {"__nobase__": True, "PREFER_DATES_FROM": "future"}, {"__nobase__": True, "DATE_ORDER": "DMY"}]
